@@ -1,12 +1,17 @@
 // C05 — keyed redistribution puts each key in one shard, chosen by the key alone.
 //
 // (i)   direct.go: Frame.Hash and exec.defaultPartitioner (through an injected
-//       accessor) on keys stored in frames at different view offsets, row
-//       positions and batch sizes, for 1..8 shards; exhaustive over 8/16-bit ints.
+//
+//	accessor) on keys stored in frames at different view offsets, row
+//	positions and batch sizes, for 1..8 shards; exhaustive over 8/16-bit ints.
+//
 // (ii)  e2e.go: Reduce, Fold, Cogroup, Reshuffle, Reshard, Repartition followed by a
-//       WriterFunc recording (shard,row), producers with 1..3 shards, both executors.
+//
+//	WriterFunc recording (shard,row), producers with 1..3 shards, both executors.
+//
 // (iii) proc.go: the (key,nshard)->shard table computed in 3 separately started
-//       OS processes must be identical (no per-process hash seed).
+//
+//	OS processes must be identical (no per-process hash seed).
 package main
 
 import (
@@ -56,7 +61,7 @@ func main() {
 	if *flagOnly == "" || *flagOnly == "e2e" {
 		runE2E(r, cov)
 	}
-	cov["rule"] = "direct: every key of every key set (8/16-bit ints, bool, strings/byte slices up to length 5 over 3 letters: exhaustive; wider ints and floats: fixed lattices (quick 4096, thorough 65536 points) incl. extremes, powers of two ±1, ±0, ±Inf, denormals; 2-column prefixes: cross products) × batch size {1,3,128} × view offset {0,1,5} × every row position × shard counts 1..8, Frame.Hash and defaultPartitioner; a case is non-trivial when the key was observed in ≥2 different placements; e2e: operator × key type × producer shard counts × layout × executor; proc: tables of 3 child processes compared with the parent's"
+	cov["rule"] = "direct: every key of every key set (8/16-bit ints, bool, strings/byte slices up to length 5 over 3 letters: exhaustive; strings/byte slices of lengths 7..4096 around powers of two, 6 contents each; wider ints and floats: fixed lattices (quick 4096, thorough 65536 points) incl. extremes, powers of two ±1, ±0, ±Inf, denormals; 2-column prefixes: cross products) × batch size {1,3,128} × view offset {0,1,5} × every row position × shard counts 1..8, Frame.Hash and defaultPartitioner; a case is non-trivial when the key was observed in ≥2 different placements; e2e: operator × key type × producer shard counts × layout × executor; proc: tables of 3 child processes compared with the parent's"
 	r.Finish(cov)
 }
 
